@@ -283,6 +283,8 @@ def run(ctx):
     # assumptions than the source states (shared with C13-D2).
     import importlib
     importlib.import_module("rules.c13").field_fidelity(db, rep, "D1-REBUILD-FIDELITY")
+    # the bytecode a wrapper carries is written by orcc and read back by the library: the integer codecs must mirror each other
+    importlib.import_module("rules.c13").d4_codec(db, rep, "D1-REBUILD-CODEC")
 
     # ---- D3b: the two halves are combined without sign extension -----------------------------
     # (the code templates of orcprogram-c.c / orcc.c that assemble a 64-bit parameter are instantiated into a scratch
